@@ -3,3 +3,5 @@ pub mod dsl;
 pub mod field;
 pub mod mutate;
 pub mod stark;
+#[cfg(not(pv_core))]
+pub mod stark_lookup;
